@@ -43,3 +43,18 @@ claim("C20", "E3", "model_checking",
       "All histories up to the depth over opens, refused opens, packets on two sessions (accepted, even, replayed, continuation left open), key mismatch, oversize header and client close on up to two connections are run in a fresh world; "
       "the four in-flight gauges read from the default registry must never be below rest and must be back at rest after teardown.",
       "histories deeper than the bound and more than two connections are not explored", "3/C20")
+claim("C11", "E1", "exploration",
+      "bounded-exhaustive enumeration of (policy, request) pairs on the real authorizer against an independent policy evaluator",
+      "Every single rule, ordered rule pair and user/group layering over a 108-rule alphabet (11 regular-expression shapes incl. alternation, partial anchors, invalid), 3-4 rule policies over a reduced alphabet, and 1-3 services with match conditions, "
+      "crossed with 240 command requests / 8 session requests x 2 scopes, are decided by the real stringy authorizer and by mc/ref/authz.go; any disagreement on grant/deny, returned values or add/replace marking is a violation.",
+      "regular-expression shapes, argument lists and service shapes outside the alphabet are not explored; whole-string match is taken as ^(?:p)$", "3/C11")
+claim("C12", "E1", "exploration",
+      "bounded-exhaustive enumeration of accounting requests (flags, hostile field contents, argument counts, arrival orders) with a record-fidelity and ordering oracle",
+      "Every flag octet, every 4-tuple of hostile content tokens in user/port/rem_addr/argument and every arrival order up to the depth through the full server: a SUCCESS reply requires exactly one sink call, before the reply's write, "
+      "whose rendered line JSON-decodes to exactly the request; invalid, unknown-user and no-accounter requests must be answered ERROR.",
+      "content tokens are a fixed list of 13 hostile strings; the syslog accounter needs a syslog socket and is not exercised", "3/C12")
+claim("C13", "E1", "exploration",
+      "bounded-exhaustive enumeration of (configuration, address) pairs on the real loader lookup and the full server against a reference admission model",
+      "All ordered selections of 1-3 of 5 overlapping scopes x 4 deny lists x 3 allow lists, queried with every boundary address of every prefix in IPv4, IPv6 and IPv4-mapped form and a non-TCP address: the real Loader.Get must agree with the model on refuse/serve and on the bound key; "
+      "through the full server a refused connection sees Close with no bytes and no handler, a served one is answered under the bound scope's key and users of other scopes do not exist.",
+      "prefix shapes outside the five scopes and the listed filters are not explored", "3/C13")
